@@ -22,6 +22,8 @@
 EXTENDS Naturals, Integers, Sequences, FiniteSets, TLC
 
 CONSTANTS InitialBackoff, RetryBackoff, FatalBackoff,    \* microseconds
+          SyncRaise,           \* partitions whose consumer's shutdown() raises synchronously instead of returning a Deferred
+                               \* (environment; {} in the default configuration): such a consumer is stopped on the spot
           KF_SwallowFatal,     \* known finding (known_findings.json, C17): TRUE = what afkak does: a failure that is not a
                                \* Kafka error, raised by the coordinator lookup, the topic metadata load or the leader's
                                \* partition lookup, is logged and swallowed -- nothing is scheduled, start() never fires
@@ -51,6 +53,13 @@ Act(st, a) == [s |-> st.s, out |-> Append(st.out, a)]
 RECURSIVE Acts(_, _, _)
 Acts(st, tag, q) == IF q = <<>> THEN st ELSE Acts(Act(st, <<tag, Head(q)>>), tag, Tail(q))
 
+\* shutdown_consumers(): shutdown() on each consumer, in order; one whose shutdown() raises is stopped at once and is not waited for
+RECURSIVE Shuts(_, _)
+Shuts(st, q) == IF q = <<>> THEN st
+                ELSE LET a == Act(st, <<"cshut", Head(q)>>) IN
+                     Shuts(IF Head(q) \in SyncRaise THEN Act(a, <<"cstop", Head(q)>>) ELSE a, Tail(q))
+Waited(q) == SelectSeq(q, LAMBDA p : p \notin SyncRaise)
+
 \* stop_consumers(): forcibly, at once
 StopConsumers(st) == LET x == Acts(st, "cstop", st.s.cons) IN St([x.s EXCEPT !.cons = <<>>, !.cfail = {}], x.out)
 
@@ -78,7 +87,9 @@ CoordStop(st) ==
 BeginStop(st, fail, app) ==
     LET s == [st.s EXCEPT !.stopFail = fail, !.stopApp = app, !.rejoinNeeded = FALSE] IN
     IF s.cons # <<>>
-    THEN LET x == Acts(St(s, st.out), "cshut", s.cons) IN St([x.s EXCEPT !.stop = "shutting", !.closing = s.cons, !.cons = <<>>, !.cfail = {}], x.out)
+    THEN LET x == Shuts(St(s, st.out), s.cons)
+             y == St([x.s EXCEPT !.stop = "shutting", !.closing = Waited(s.cons), !.cons = <<>>, !.cfail = {}], x.out)
+         IN IF y.s.closing = <<>> THEN CoordStop(y) ELSE y
     ELSE CoordStop(St([s EXCEPT !.stop = "shutting"], st.out))
 
 \* ---------------------------------------------------------------- errors
@@ -150,7 +161,9 @@ Step(s, e) ==
            IF s.stop # "no" THEN EndJoin(st0)
            ELSE LET s1 == [s EXCEPT !.coordKnown = TRUE] IN
                 IF s.cons = <<>> THEN SendJoin(St(s1, <<>>))
-                ELSE LET x == Acts(St(s1, <<>>), "cshut", s.cons) IN St([x.s EXCEPT !.rj = "prepare", !.closing = s.cons, !.cons = <<>>, !.cfail = {}], x.out)
+                ELSE LET x == Shuts(St(s1, <<>>), s.cons)
+                         y == St([x.s EXCEPT !.rj = "prepare", !.closing = Waited(s.cons), !.cons = <<>>, !.cfail = {}], x.out)
+                     IN IF y.s.closing = <<>> THEN SendJoin(y) ELSE y
       [] e.a \in {"MetaErr", "PartsErr"} ->
            IF e.k = "other" /\ KF_SwallowFatal THEN EndJoin(st0) ELSE RejoinAfterError(EndJoin(st0), e.k)
       [] e.a = "CShut" ->
